@@ -723,8 +723,8 @@ def main(ck):
   ck.run_hypothesis(rt_test, st.tuples(gen_io.rich_models(max_bodies=4, memory='2M', fusestatic=False), mg.state_seed()), ck.budget(16, 250),
                     name='roundtrip', shrink=False)
   _tick('roundtrip-generated')
-  files = [f for f in corpus.xml_files(lib.repo) if os.path.getsize(f) < (4000 if quick else 10 ** 9)]
-  files = [files[i] for i in rng.permutation(len(files))][:ck.budget(14, 10 ** 6)]
+  files = [f for f in corpus.xml_files(lib.repo) if os.path.getsize(f) < (4000 if quick else 40000)]
+  files = [files[i] for i in rng.permutation(len(files))][:ck.budget(14, 110)]
   crecs = []
   for f, m in corpus.iter_models(lib, files):
     if int(lib.mj_sizeModel(m)) > (1 << 20 if quick else 64 << 20):
